@@ -253,6 +253,16 @@ var c16Classes = []c16Class{
 	{"watch", func(cn *wire.Conn, rng *rand.Rand, i int, _ *c16Env) error {
 		return pipe(cn, []string{"WATCH", "k0", "l0"}, []string{"MULTI"}, []string{"SET", "k0", "w"}, []string{"EXEC"}, []string{"UNWATCH"})
 	}},
+	{"multi-introspection", func(cn *wire.Conn, rng *rand.Rand, i int, _ *c16Env) error {
+		return pipe(cn, []string{"MULTI"}, []string{"CLIENT", "LIST"}, []string{"CLIENT", "UNBLOCK", "999999"}, []string{"INFO"}, []string{"CLIENT", "KILL", "ID", "999999"}, []string{"DBSIZE"}, []string{"EXEC"})
+	}},
+	{"multi-select", func(cn *wire.Conn, rng *rand.Rand, i int, _ *c16Env) error {
+		db := strconv.Itoa(1 + rng.Intn(3))
+		if i%3 == 0 {
+			return pipe(cn, []string{"SELECT", db}, []string{"MULTI"}, []string{"FLUSHALL"}, []string{"SET", "k0", "f"}, []string{"EXEC"}, []string{"SELECT", "0"})
+		}
+		return pipe(cn, []string{"MULTI"}, []string{"SELECT", db}, []string{"SET", "k0", "x"}, []string{"RANDOMKEY"}, []string{"RPUSH", "l0", "x"}, []string{"SELECT", "0"}, []string{"GET", "k0"}, []string{"EXEC"})
+	}},
 	{"watch-other-db", func(cn *wire.Conn, rng *rand.Rand, i int, _ *c16Env) error {
 		// keys watched in one database, transaction executed (or dropped) in another
 		db := strconv.Itoa(1 + rng.Intn(3))
@@ -521,7 +531,7 @@ func c16RunPairs(r *verdict.Run, pairs []c16Pair, opsPerConn int, shard int) []h
 }
 
 func checkC16(r *verdict.Run) {
-	r.Rule = fmt.Sprintf("the emulator is built with -race and driven by a pair-coverage workload: %d command classes (string/list/hash/set/bitmap read+write, counters, blocking pops, set algebra, keyspace, expiry, SCAN, MULTI/EXEC, WATCH, WATCH and writes across databases, SELECT, FLUSH, DBSIZE, CLIENT LIST/INFO/SETNAME, CLIENT UNBLOCK/KILL, INFO, HELLO, COMMAND, connection churn, SORT, invalid input); every scheduled pair runs 3+3 connections concurrently on the same keys, "+
+	r.Rule = fmt.Sprintf("the emulator is built with -race and driven by a pair-coverage workload: %d command classes (string/list/hash/set/bitmap read+write, counters, blocking pops, set algebra, keyspace, expiry, SCAN, MULTI/EXEC, transactions with CLIENT LIST/KILL/UNBLOCK/INFO and with SELECT/FLUSHALL inside, WATCH, WATCH and writes across databases, SELECT, FLUSH, DBSIZE, CLIENT LIST/INFO/SETNAME, CLIENT UNBLOCK/KILL, INFO, HELLO, COMMAND, connection churn, SORT, invalid input); every scheduled pair runs 3+3 connections concurrently on the same keys, "+
 		"with the periodic saver on (persist path), a second emulator instance in the same process, SetHook toggled from the host and yields injected around the data store lock; race reports are read from the GORACE log, reduced to the sorted pair of innermost emulator functions. distinct = class pairs whose operations demonstrably overlapped in time", len(c16Classes))
 	n := len(c16Classes)
 	var all []c16Pair
